@@ -63,6 +63,14 @@ instance {α : Type} [Codec α] : Codec (Option α) :=
        | [] => none,
    fun | none => [0] | some a => 1 :: Codec.enc a⟩
 
+instance : Codec Unit := ⟨fun t => some ((), t), fun _ => []⟩
+def excCode : PyExc → Int
+  | .KeyError => 0 | .ValueError => 1 | .TypeError => 2 | .IndexError => 3 | .ZeroDivisionError => 4
+  | .StopIteration => 5 | .RecursionError => 6 | .Other => 7
+def encExcept {α : Type} [Codec α] : Except PyExc α → List Int
+  | .ok v => 1 :: Codec.enc v
+  | .error e => [0, excCode e]
+
 def showInts (l : List Int) : String := " ".intercalate (l.map toString)
 def parseInts (s : String) : Option (List Int) :=
   ((s.trim.splitOn " ").filter (· ≠ "")).mapM String.toInt?
@@ -70,14 +78,31 @@ def parseInts (s : String) : Option (List Int) :=
 
 
 # ------------------------------------------------------------------ int-stream codec, Python side
+VAR_INST = {'κ': ('Str',)}     # dict keys are instantiated with strings (keyword names must be strings)
+
+
 def enc(t, v, out):
     k = t[0]
+    if k == 'Var' and t[1] in VAR_INST:
+        return enc(VAR_INST[t[1]], v, out)
     if k == 'Int':
+        if isinstance(v, bool) or not isinstance(v, int):
+            raise ValueError('not an int: %r' % (v,))
         out.append(int(v))
     elif k == 'Bool':
+        if not isinstance(v, bool):
+            raise ValueError('not a bool: %r' % (v,))
         out.append(1 if v else 0)
     elif k == 'Var':                      # abstract items: instantiated with Int
         out.append(int(v))
+    elif k == 'Unit':
+        if v is not None:
+            raise ValueError('not None: %r' % (v,))
+    elif k == 'Dict':
+        out.append(len(v))
+        for kk, x in v.items():
+            enc(t[1], kk, out)
+            enc(t[2], x, out)
     elif k == 'Str':
         out.append(len(v))
         out.extend(ord(c) for c in v)
@@ -110,8 +135,14 @@ def canon(t, v):
 def lean_type(t):
     """Lean type text with type variables instantiated to Int"""
     k = t[0]
+    if k == 'Var' and t[1] in VAR_INST:
+        return lean_type(VAR_INST[t[1]])
     if k == 'Var':
         return 'Int'
+    if k == 'Unit':
+        return 'Unit'
+    if k == 'Dict':
+        return '(PyRt.Dict %s %s)' % (lean_type(t[1]), lean_type(t[2]))
     if k in ('Int', 'Bool'):
         return k
     if k == 'Str':
@@ -135,6 +166,51 @@ class _Self:
         if self._n < 0:
             raise ValueError('__len__() should return >= 0')
         return self._n
+
+
+def to_py(t, v, in_dict=False):
+    """the Python object for a value of (Lean) type t: dicts are dicts, a product stored in a dict is the
+    mutable fixed-length list the class keeps there"""
+    k = t[0]
+    if k == 'Dict':
+        return {kk: to_py(t[2], x, True) for kk, x in v.items()}
+    if k == 'Prod':
+        parts = [to_py(tt, x) for tt, x in zip(t[1], v)]
+        return parts if in_dict else tuple(parts)
+    if k == 'List':
+        return [to_py(t[1], x) for x in v]
+    if k == 'Option':
+        return None if v is None else to_py(t[1], v)
+    return v
+
+
+EXC_CODES = {n: i for i, n in enumerate(py2lean.EXC_NAMES)}
+
+
+def call_method(spec, fn, case):
+    """a method of a class with object state: build the object from the state in `case['self']`, call, read the
+    state back.  -> (('ok', value) | ('exc', class name), state after as {attr: value})"""
+    import importlib
+    cls = spec['cls']
+    pycls = getattr(importlib.import_module(spec['module']), cls['name'])
+    obj = pycls.__new__(pycls)
+    for a, tt in cls['state'].items():
+        setattr(obj, a, to_py(py2lean.parse_type(tt), case['self'][a]))
+    pos = [to_py(py2lean.parse_type(tt), case[py2lean.mangle(p)]) for p, tt in spec['params'].items()]
+    kw = {}
+    for kn, kt in spec.get('kwargs', {}).items():
+        kw = to_py(py2lean.parse_type(kt), case[kn])
+    try:
+        with common.time_limit(5):
+            r = fn(obj, *pos, **kw)
+            if spec['kind'] == 'generator':
+                r = list(r)
+        res = ('ok', r)
+    except common.CaseTimeout:
+        res = ('exc', 'CaseTimeout')
+    except Exception as e:  # noqa: BLE001
+        res = ('exc', type(e).__name__)
+    return res, {a: getattr(obj, a) for a in cls['state']}
 
 
 def call_real(spec, fn, args):
@@ -218,7 +294,80 @@ def fam_resolve(rng, quick):
         yield dict(path_parts=[rng.choice(alpha2) for _ in range(rng.randint(0, 9))])
 
 
+TC_KEYS = ['a', 'b', 'c', 'd', 'e', 'f', 'key', '']
+
+
+def _tc_states(rng, quick):
+    """states of a ThresholdCounter: reachable ones (prefixes of random histories run on the real class built by
+    its own __init__) and arbitrary ones (any ints, `_thresh_count` 0 or negative, counts that do not add up)"""
+    import importlib
+    pycls = importlib.import_module('boltons.cacheutils').ThresholdCounter
+
+    def snap(tc):
+        return {'total': tc.total, '_count_map': {k: tuple(v) for k, v in tc._count_map.items()},
+                '_cur_bucket': tc._cur_bucket, '_thresh_count': tc._thresh_count}
+    for _ in range(12 if quick else 120):
+        w = rng.choice([1, 2, 3, 3, 4, 5, 7, 10])
+        tc = pycls(threshold=1.0 / w * 0.999 if w > 1 else 0.99)
+        if tc._thresh_count != w:
+            tc._thresh_count = w
+        keys = rng.sample(TC_KEYS, rng.randint(1, len(TC_KEYS)))
+        yield snap(tc)
+        for _ in range(rng.randint(1, 30)):
+            r = rng.random()
+            if r < 0.7:
+                tc.add(rng.choice(keys))
+            elif r < 0.85:
+                tc.update([rng.choice(keys) for _ in range(rng.randint(0, 4))])
+            else:
+                tc.update({rng.choice(keys): rng.randint(0, 3) for _ in range(rng.randint(0, 3))})
+            yield snap(tc)
+    for _ in range(40 if quick else 400):
+        ks = rng.sample(TC_KEYS, rng.randint(0, 5))
+        yield {'total': rng.randint(-3, 30), '_count_map': {k: (rng.randint(-2, 9), rng.randint(-2, 5)) for k in ks},
+               '_cur_bucket': rng.randint(-1, 6), '_thresh_count': rng.choice([0, 0, 1, 2, 3, -2, 5])}
+
+
+def fam_tc(method):
+    def fam(rng, quick):
+        for st in _tc_states(rng, quick):
+            for _ in range(2):
+                known_ = list(st['_count_map']) or TC_KEYS
+                key = rng.choice(known_) if rng.random() < 0.6 else rng.choice(TC_KEYS)
+                case = {'self': st}
+                if method in ('add', 'getitem', 'contains'):
+                    case['key'] = key
+                elif method == 'get':
+                    case['key'] = key
+                    case['default_'] = rng.choice([0, 0, -1, 7])
+                elif method == 'most_common':
+                    case['n'] = rng.choice([None, None, -1, 0, 1, 2, 3, 50])
+                elif method == 'update_keys':
+                    case['iterable'] = None if rng.random() < 0.2 else \
+                        [rng.choice(TC_KEYS) for _ in range(rng.randint(0, 6))]
+                    case['kwargs'] = {} if rng.random() < 0.5 else \
+                        {rng.choice(TC_KEYS[:7]): rng.randint(-1, 3) for _ in range(rng.randint(1, 3))}
+                elif method == 'update_map':
+                    case['iterable'] = None if rng.random() < 0.2 else \
+                        {rng.choice(TC_KEYS): rng.randint(-1, 4) for _ in range(rng.randint(0, 4))}
+                    case['kwargs'] = {} if rng.random() < 0.5 else \
+                        {rng.choice(TC_KEYS[:7]): rng.randint(-1, 3) for _ in range(rng.randint(1, 3))}
+                yield case
+    return fam
+
+
 FAMILIES = {
+    'ThresholdCounter.add': fam_tc('add'),
+    'ThresholdCounter.getitem': fam_tc('getitem'),
+    'ThresholdCounter.len': fam_tc('len'),
+    'ThresholdCounter.contains': fam_tc('contains'),
+    'ThresholdCounter.get': fam_tc('get'),
+    'ThresholdCounter.get_common_count': fam_tc('get_common_count'),
+    'ThresholdCounter.get_uncommon_count': fam_tc('get_uncommon_count'),
+    'ThresholdCounter.iteritems': fam_tc('iteritems'),
+    'ThresholdCounter.most_common': fam_tc('most_common'),
+    'ThresholdCounter.update_map': fam_tc('update_map'),
+    'ThresholdCounter.update_keys': fam_tc('update_keys'),
     'chunk_ranges': fam_chunk_ranges,
     'get_real_index': fam_index,
     'get_apparent_index': fam_index,
@@ -425,8 +574,30 @@ def build_driver(pids, repo, snippets=False):
         fns.extend(sfns)
     body.append(CODEC)
     arms = []
+    FUEL = 40
     for n, (spec, short, _) in enumerate(fns):
         tr = _translator(spec)
+        if spec.get('cls') is not None:
+            # a method: the inputs are the state fields, then the parameters; the output is the Except value
+            # (or the plain value), then the fields of the new state when the method changes it
+            cls = spec['cls']
+            fields = [(py2lean.lean_field(a), py2lean.parse_type(t)) for a, t in cls['state'].items()]
+            params = [(pn, pt) for pn, pt in tr.params if pt != ('Obj',)]
+            names = ['f_' + f for f, _ in fields] + ['a_' + pn for pn, _ in params]
+            types = [lean_type(t) for _, t in fields] + [lean_type(t) for _, t in params]
+            argt = types[0] if len(types) == 1 else '(' + ' × '.join(types) + ')'
+            pat = names[0] if len(names) == 1 else '(' + ', '.join(names) + ')'
+            full = 'Src.%s.%s' % (short, spec['lean_name'])
+            st = '{ %s }' % ', '.join('%s := f_%s' % (f, f) for f, _ in fields)
+            call = '(%s %s%s %s)' % (full, ('%d ' % FUEL) if tr.fuel else '', st,
+                                     ' '.join('a_' + pn for pn, _ in params))
+            val = 'encExcept r' if tr.raises else 'Codec.enc r'
+            if tr.cls_mut:
+                val = val.replace(' r', ' r.1') + ' ++ ' + ' ++ '.join('Codec.enc r.2.%s' % f for f, _ in fields)
+            arms.append('  | %d :: t => (match (Codec.dec t : Option (%s × List Int)) with\n'
+                        '    | some (%s, []) => let r := %s; showInts ([1] ++ %s)\n'
+                        '    | _ => "bad-args")' % (n, argt, pat, call, val))
+            continue
         names = [p for p, _ in tr.params]
         types = [lean_type(t) for _, t in tr.params]
         argt = types[0] if len(types) == 1 else '(' + ' × '.join(types) + ')'
@@ -459,9 +630,9 @@ def _translator(spec):
     if spec['module'] == 'snippets':
         tree = ast.parse(SNIPPET_SRC)
         defs = {n.name: n for n in tree.body if isinstance(n, ast.FunctionDef)}
-        return py2lean.FnTranslator(py2lean._find_function(tree, spec['qualname']), spec, defs)
+        return py2lean.FnTranslator(py2lean._find_function(tree, spec['qualname']), spec, defs, tree)
     return py2lean.FnTranslator(py2lean._find_function(_parse(spec['module']), spec['qualname']), spec,
-                                _module_defs(spec['module']))
+                                _module_defs(spec['module']), _parse(spec['module']))
 
 
 def _parse(module_name):
@@ -494,8 +665,12 @@ def run(pids, quick=False, seed=0, verbose=True, snippets=False):
                 tr_params = f.params
                 rtype = f.R
             toks = [n]
+            if spec.get('cls') is not None:
+                for a, tt in spec['cls']['state'].items():
+                    enc(py2lean.parse_type(tt), case['self'][a], toks)
             for name, t in tr_params:
-                enc(t, case[name], toks)
+                if t != ('Obj',):
+                    enc(t, case[name], toks)
             lines.append(' '.join(map(str, toks)))
             meta.append((spec, fn, case, rtype))
     tmp = tempfile.mkdtemp(prefix='py2lean-selftest-')
@@ -527,8 +702,34 @@ def run(pids, quick=False, seed=0, verbose=True, snippets=False):
             raise common.InfraError('driver rejected a line: %s for %r' % (got, case))
         toks = [int(x) for x in got.split()]
         pre, val = toks[0], toks[1:]
-        kind, res = call_real(spec, fn, case)
         bad = None
+        if spec.get('cls') is not None:
+            # raising mode: the exception class (or the value) AND the state after the call must agree
+            (kind, res), after = call_method(spec, fn, case)
+            try:
+                if kind == 'exc':
+                    r['python_raises'] += 1
+                    want = [0, EXC_CODES.get(res, 7)]
+                    if not spec.get('raises'):
+                        want = None             # total mode: not compared
+                else:
+                    want = ([1] if spec.get('raises') else []) + canon(rtype, res)
+                if want is not None and method_mutates(spec):
+                    for a, tt in spec['cls']['state'].items():
+                        want = want + canon(py2lean.parse_type(tt), after[a])
+            except Exception as e:  # noqa: BLE001
+                want = 'unencodable %r / %r (%s)' % (res, after, e)
+            if want is not None:
+                r['compared'] += 1
+                if res == 'CaseTimeout':
+                    bad = 'Python does not terminate'
+                elif want != val:
+                    bad = 'Python %s %r, state after %r (stream %s) but Lean stream %s' % (kind, res, after, want, val)
+            if bad:
+                r['mismatches'] += 1
+                mismatches.append((spec['lean_name'], case, bad))
+            continue
+        kind, res = call_real(spec, fn, case)
         if pre == 0:
             r['pre_false'] += 1
             if kind == 'ok':
@@ -564,6 +765,14 @@ def run(pids, quick=False, seed=0, verbose=True, snippets=False):
 
 
 _GUARD_CALLS = {}
+_MUT = {}
+
+
+def method_mutates(spec):
+    if spec['lean_name'] not in _MUT:
+        _MUT[spec['lean_name']] = _translator(spec).cls_mut
+    return _MUT[spec['lean_name']]
+
 
 
 def _guards_pass(spec, case):
